@@ -376,8 +376,28 @@ func runCluster(r *mon.Report, idx int, rng *rand.Rand) {
 		js := []map[string]any{{"nodes": "100%"}, scoped}
 		cfg.Budgets = func(*rand.Rand) []v1.Budget { bs, _, _ := decodeBudgets(js); return bs }
 	}
+	// third directed family: many small nodes whose pods can share a node, so that multi-node consolidation picks several
+	// candidates at once under a small count budget; during the validation wait another node of the pool stops being
+	// Ready, which eats into the allowance (the remaining budget ends up between 1 and the number of candidates)
+	multi := !directed && !window && rng.Intn(5) == 0
+	if multi {
+		cfg.Scenario.Pod = gen.PodCfg{MaxCPUMilli: 400}
+		cfg.Scenario.MinPools, cfg.Scenario.MaxPools = 1, 1
+		cfg.Scenario.Pool.PRequirement, cfg.Scenario.Pool.PCustomLabel, cfg.Scenario.Pool.PTaint = 0, 0, 0
+		cfg.Scenario.Catalog.MinTypes, cfg.Scenario.Catalog.MaxTypes = 8, 12
+		cfg.Rounds, cfg.PodsPerRound = 7, 2
+		cfg.PDeletePod, cfg.PDrift, cfg.PNotReady, cfg.PUninitialized = 0.25, 0, 0, 0
+		cfg.OnePodPerNode, cfg.SmallPods = false, true
+		cfg.ConsolidateAfter = []string{"0s"}
+		cfg.Policies = []v1.ConsolidationPolicy{v1.ConsolidationPolicyWhenEmptyOrUnderutilized}
+		n := []string{"2", "3", "3"}[rng.Intn(3)]
+		cfg.Budgets = func(*rand.Rand) []v1.Budget { return []v1.Budget{{Nodes: n}} }
+	}
 	d := common.BuildDisruption(rng, cfg)
 	e := d.Env
+	if multi {
+		r.Inc("cluster_cases_with_many_small_nodes_and_a_count_budget")
+	}
 	if directed {
 		// transient state: kubelet already reports Ready but the lifecycle controller has not initialised the claim yet
 		nodes := &corev1.NodeList{}
@@ -409,7 +429,7 @@ func runCluster(r *mon.Report, idx int, rng *rand.Rand) {
 	// churn during the validation wait: nodes going NotReady
 	churned := false
 	e.Clock.OnWait(func(w time.Duration) {
-		if w < 10*time.Second || churned || rng.Intn(3) != 0 {
+		if w < 10*time.Second || churned || (!multi && rng.Intn(3) != 0) {
 			return
 		}
 		churned = true
